@@ -33,7 +33,17 @@ ENGINES = [
 PENDING_REASON = "check under construction in this session (spec and driver not yet committed); see DESIGN.md section 5"
 
 
+def load_fragments():
+    import glob
+    for f in sorted(glob.glob(os.path.join(HERE, "manifest.d", "C*.json"))):
+        pid = os.path.basename(f)[:-5]
+        CHECKS[pid] = json.load(open(f))
+        ENGINES.append(dict(name=CHECKS[pid]["engine"], path=CHECKS[pid].get("path", "spec/"),
+                            serves_properties=[pid], kind_free_text="TLA+ spec + TLC + conformance driver"))
+
+
 def main():
+    load_fragments()
     checks = []
     for pid in ALL:
         if pid not in CHECKS:
